@@ -63,10 +63,13 @@ def nonempty_atom(atom, nf):
                 if (fields_in(end) & set(nf)) and not has_nonself_param(end):
                     return True
     if op == 'is':
-        # `if let Some(..) = self.<nullable option>`: discriminant 1
+        # `if let Some(..) = self.<nullable option>` (discriminant 1) or `self.<nullable option>?` (Try::branch Continue)
         t = a
         if isinstance(t, tuple) and t and t[0] == 'discr':
             inner = strip_ref(t[1])
+            if isinstance(inner, tuple) and inner[:1] == ('call',) and inner[1].split('::')[-1] == 'branch' and inner[2] and b == 0:
+                inner = strip_ref(inner[2][0])
+                b = 1
             while isinstance(inner, tuple) and inner and inner[0] == 'call' and inner[1].split('::')[-1] in ('as_ref', 'as_mut') and inner[2]:
                 inner = inner[2][0]
             if b == 1 and isinstance(inner, tuple) and inner[0] == 'field' and inner[2] in nf and 'Option' in nf[inner[2]]:
@@ -168,7 +171,12 @@ def rule_E(FA):
         entries = [f for f in FA.lib_fns(include_closures=False)
                    if f.get('_base') == struct and f['exported'] and not f['unsafe'] and f['name'] not in ('fmt',)]
         for e in entries:
-            for spec in FA.specs(e):
+            # specialise on every boolean const generic of the entry, also those only used by its callees
+            cps = FA.const_params(e)
+            import itertools
+            all_specs = [dict(zip(cps, vals)) for vals in itertools.product([False, True], repeat=len(cps))] if len(cps) <= 2 else list(FA.specs(e))
+            used = set(FA.used_const_params(e))
+            for spec in all_specs:
                 findings = {}
                 visited = []
 
@@ -209,7 +217,7 @@ def rule_E(FA):
                                     walk(cal, nf2, prot, chain + ['%s::%s' % (cb.split('::')[-1], cal['name'])], depth + 1, seen)
                 walk(e, nf0, False, [e['name']], 0, set())
                 n_sens += len(visited)
-                ekey = '%s%s' % (fn_key(e), spec_key(spec))
+                ekey = '%s%s' % (fn_key(e), spec_key({k: v for k, v in spec.items() if k != 'WITH_PREFETCH_SUPPORT' or k in used}))
                 if findings:
                     for (kind, where_fn, what), (line, chain) in sorted(findings.items()):
                         out.append(Inst('R-E', 'R-E|%s|%s %s in %s' % (ekey, kind, what, where_fn.split('::')[-1]), 'violation', line,
